@@ -258,8 +258,9 @@ class DiffFamily(Family):
 register("C18", {
     "level": "exploration",
     "rule": "differential simulation: each single-caller scenario of the corpus (generators of "
-            "C02, C03, C09, C10, C11, C15-scratch, C16, C17, C20 and single-caller I/O-fault runs "
-            "on the C05 bases) is executed for the same seed through the async classes on the "
+            "C02, C03 (plain and forward-proxy modes), C09, C10, C11, C15-scratch, C16, C17, C20, "
+            "single-caller HTTP/2 histories with GOAWAY / RST_STREAM events and single-caller "
+            "I/O-fault runs on the C05 bases) is executed for the same seed through the async classes on the "
             "virtual-time event loop and through the sync classes on the thread executor; "
             "compared: per-wire byte streams in both directions, the sequence of network "
             "operations with their arguments and virtual instants, caller outcomes (status, "
